@@ -122,11 +122,19 @@ def gen_stream(r):
         return (msg, b"v0-" + b32(S.sign(k, msg)), key(k)[2])
 
     batches = []
+    reconnects = set()          # indices of batches before which the introducer connection is lost and re-established
     for _ in range(r.randrange(2, 8)):
         batch = []
-        for _ in range(r.choice([1, 2, 3, 3, 4, 6])):
+        forced = []
+        if batches and r.random() < 0.4:
+            # an introducer restart: it comes back knowing nothing and relays whatever is published to it,
+            # old but validly signed announcements included
+            reconnects.add(len(batches))
+            forced = [r.choice(["replay-oldest", "replay-oldest", "replay"]),
+                      r.choice(["no-seqnum", "string-seqnum", "float-seqnum", "replay-oldest", "lower-seq", "fresh"])]
+        for _ in range(max(len(forced), r.choice([1, 2, 3, 3, 4, 6]))):
             k = r.randrange(1, NKEYS + 1)
-            kind = r.choice(["fresh"] * 6 + ["replay", "replay", "duplicate", "same-seq-other-content", "lower-seq", "wrong-service",
+            kind = forced.pop(0) if forced else r.choice(["fresh"] * 6 + ["replay", "replay", "duplicate", "same-seq-other-content", "lower-seq", "wrong-service",
                                              "no-seqnum", "float-seqnum", "string-seqnum", "null-seqnum",
                                              "wrong-key", "flipped-msg", "flipped-sig", "truncated-sig",
                                              "unsigned", "sig-no-v0", "key-no-v0", "bad-b32-sig", "bad-b32-key", "short-key", "random-key",
@@ -137,7 +145,16 @@ def gen_stream(r):
                         "sig-no-v0", "key-no-v0", "bad-b32-sig", "bad-b32-key", "short-key", "random-key", "respelled-key",
                         "unsigned") and not history[k]:
                 kind = "fresh"
-            if kind == "fresh":
+            if kind == "replay-oldest":
+                cands = [kk for kk in history if len(history[kk]) >= 2]
+                if cands:
+                    k = r.choice(cands)
+                    w = history[k][0]
+                else:
+                    kind = "fresh"
+            if kind == "replay-oldest":
+                pass
+            elif kind == "fresh":
                 nextseq[k] += r.choice([1, 1, 1, 2, 10])
                 w = genuine(k, make_ann(r, k, nextseq[k], service=r.choice(["storage"] * 4 + ["stub"])))
             elif kind == "replay":
@@ -233,7 +250,7 @@ def gen_stream(r):
                 history[k].pop()
             batch.append(dict(kind=kind, wire=w))
         batches.append(batch)
-    return S, batches
+    return S, batches, reconnects
 
 
 # ---- independent reading of a wire (driver side of the abstraction) ------------------
@@ -390,29 +407,71 @@ def describe(batches):
     return [[{"kind": it["kind"], "wire": show(it["wire"])} for it in b] for b in batches]
 
 
-def run_client(batches, cache):
-    """Feed the stream to a real IntroducerClient. -> dict(delivered, stored, counts, errors)"""
+class FakeIntroducer(object):
+    """Stands for the RemoteReference to the introducer that foolscap hands to the client on connection."""
+
+    def __init__(self):
+        from allmydata.introducer.client import V2
+        self.version = {V2: {}, b"application-version": b"verif"}
+        self.on_disconnect = []
+
+    def notifyOnDisconnect(self, cb, *a, **kw):
+        self.on_disconnect.append((cb, a, kw))
+
+    def callRemote(self, *a, **kw):
+        from twisted.internet import defer
+        return defer.succeed(None)
+
+    def getDataLastReceivedAt(self):
+        return None
+
+    def lose(self):
+        cbs, self.on_disconnect = self.on_disconnect, []
+        for cb, a, kw in cbs:
+            cb(*a, **kw)
+
+
+def run_client(batches, cache, reconnects=(), connected=False):
+    """Feed the stream to a real IntroducerClient. -> dict(delivered, stored, counts, errors)
+    With `connected`, the client is given an introducer connection the way foolscap does
+    (_got_versioned_introducer), batches arrive through remote_announce_v2, and before the batches listed
+    in `reconnects` the connection is lost (the notifyOnDisconnect callback fires) and re-established."""
     from twisted.python.filepath import FilePath
     from allmydata.introducer.client import IntroducerClient
     ic = IntroducerClient(None, "introducer.furl", u"verif", "ver", "oldest", lambda: (1, "n"), FilePath(cache))
     log = delivered = []
+    at = []
+    cur = [0]
     for svc in SUBSCRIBED:
-        ic.subscribe_to(svc, lambda key_s, ann, svc=svc: log.append((svc, key_s, json.dumps(ann, sort_keys=True))))
+        ic.subscribe_to(svc, lambda key_s, ann, svc=svc: (log.append((svc, key_s, json.dumps(ann, sort_keys=True))), at.append(cur[0])))
     errors = []
+    intro = None
+    if connected or reconnects:
+        intro = FakeIntroducer()
+        ic._got_versioned_introducer(intro)
     for bi, batch in enumerate(batches):
+        cur[0] = bi
         try:
-            ic.got_announcements([it["wire"] for it in batch])
+            if bi in reconnects:
+                intro.lose()
+                intro = FakeIntroducer()
+                ic._got_versioned_introducer(intro)
+            if intro is not None:
+                ic.remote_announce_v2([it["wire"] for it in batch])
+            else:
+                ic.got_announcements([it["wire"] for it in batch])
         except BaseException as e:
             errors.append((bi, type(e).__name__, str(e)[:120]))
     # read the store back through the public API: a late subscriber is told everything that is stored
     # (the replay notifies every observer of the service, so freeze the delivery log first)
     delivered = list(delivered)
+    at = list(at)
     stored = []
     for svc in SUBSCRIBED:
         seen = []
         ic.subscribe_to(svc, lambda key_s, ann, svc=svc, seen=seen: seen.append((svc, key_s, json.dumps(ann, sort_keys=True))))
         stored.extend(seen)
-    return dict(delivered=delivered, stored=stored, counts=dict(ic._debug_counts), errors=errors)
+    return dict(delivered=delivered, delivered_at=at, stored=stored, counts=dict(ic._debug_counts), errors=errors)
 
 
 def run_server(batches):
@@ -435,12 +494,12 @@ def run_server(batches):
 
 def one_stream(ctx, i, alias_ok, cache, terms, info):
     r = ctx.rng("stream", i)
-    S, batches = gen_stream(r)
+    S, batches, reconnects = gen_stream(r)
     for b in batches:
         for it in b:
             it["alias_ok"] = alias_ok
-    obs = run_client(batches, cache)
-    cinfo = {"stream": "stream", "index": i, "batches": describe(batches)}
+    obs = run_client(batches, cache, reconnects, connected=(i % 2 == 1))
+    cinfo = {"stream": "stream", "index": i, "batches": describe(batches), "connection_lost_before_batches": sorted(reconnects)}
     canon_of = dict((key(k)[2], k) for k in range(1, NKEYS + 1))
 
     # ---- direct oracle ----
@@ -453,7 +512,8 @@ def one_stream(ctx, i, alias_ok, cache, terms, info):
     want, _ = rule_run(S, batches, SUBSCRIBED)
     got = [(ks, c) for (_, ks, c) in obs["delivered"]]
     last = {}
-    for svc, ks, c in obs["delivered"]:
+    last_at = {}
+    for (svc, ks, c), bi in zip(obs["delivered"], obs["delivered_at"]):
         a = json.loads(c)
         k = canon_of.get(ks)
         msgs = [m for (kk, m) in S.sigs if kk == k and analyse_msg(m) not in (None, "malformed") and analyse_msg(m)["canon"] == c] if k else []
@@ -471,11 +531,20 @@ def one_stream(ctx, i, alias_ok, cache, terms, info):
         idx = (svc, ks)
         s_new = a.get("seqnum")
         if idx in last and isinstance(last[idx], int) and not isinstance(last[idx], bool):
-            if not isinstance(s_new, int) or s_new <= last[idx]:
-                ctx.oracle_fail("announcement-replaced-by-not-newer-seqnum",
-                                "for (%s, %s) an announcement with seqnum %r replaced the stored one with seqnum %r" % (svc, ks.decode(), s_new, last[idx]),
-                                case=cinfo, expected="seqnum > %r" % (last[idx],), observed=s_new)
+            if not isinstance(s_new, int) or isinstance(s_new, bool) or s_new <= last[idx]:
+                lost = [x for x in sorted(reconnects) if last_at[idx] < x <= bi]
+                if lost:
+                    ctx.oracle_fail("announcement-rolled-back-after-reconnect",
+                                    "what subscribers hold for (%s, %s) went back from seqnum %r (handed over in batch %d) to seqnum %r (batch %d) after the connection "
+                                    "to the introducer was lost and re-established before batch %s: the accepted sequence numbers did not survive the reconnection"
+                                    % (svc, ks.decode(), last[idx], last_at[idx], s_new, bi, lost),
+                                    case=cinfo, expected="seqnum > %r" % (last[idx],), observed=s_new)
+                else:
+                    ctx.oracle_fail("announcement-replaced-by-not-newer-seqnum",
+                                    "for (%s, %s) an announcement with seqnum %r replaced the stored one with seqnum %r" % (svc, ks.decode(), s_new, last[idx]),
+                                    case=cinfo, expected="seqnum > %r" % (last[idx],), observed=s_new)
         last[idx] = s_new
+        last_at[idx] = bi
     if not obs["errors"] and got != want:
         missing = [x for x in want if x not in got]
         extra = [x for x in got if x not in want]
@@ -500,6 +569,11 @@ def one_stream(ctx, i, alias_ok, cache, terms, info):
             ws.append(sym.wire(it["wire"], n))
         bts.append(T.lst(ws))
     subs = T.lst([T.N(sym.svc(s)) for s in SUBSCRIBED])
+    evs = []
+    for bi, bt in enumerate(bts):
+        if bi in reconnects:
+            evs.append("EReconnect")
+        evs.append("(EBatch %s)" % bt)
 
     def ksym(ks):
         c = classify_key(ks)
@@ -514,10 +588,10 @@ def one_stream(ctx, i, alias_ok, cache, terms, info):
     if obs["errors"]:
         terms.append("false")
     else:
-        terms.append("(let r := sym_run %s %s true %s %s in triples_eqb (delivered_ids (fst r)) %s && quads_seteq (stored_ids (fst r)) %s "
+        terms.append("(let r := sym_run_events %s %s true %s %s in triples_eqb (delivered_ids (fst r)) %s && quads_seteq (stored_ids (fst r)) %s "
                      "&& (count_verdict PNew (snd r) =? %d) && (count_verdict PUpdate (snd r) =? %d) && (count_verdict PDuplicate (snd r) =? %d) "
                      "&& (count_verdict PWrongService (snd r) =? %d) && (%s =? %d))"
-                     % (T.boolean(alias_ok), T.lst(sym.tbl), subs, T.lst(bts), dl, stq, cnt["new_announcement"], cnt["update"],
+                     % (T.boolean(alias_ok), T.lst(sym.tbl), subs, T.lst(evs), dl, stq, cnt["new_announcement"], cnt["update"],
                         cnt["duplicate_announcement"], cnt["wrong_service"], npassed, cnt["inbound_announcement"]))
     info.append(("client", i, cinfo, {"delivered": obs["delivered"], "counts": cnt, "errors": obs["errors"]}))
 
@@ -556,6 +630,8 @@ def one_stream(ctx, i, alias_ok, cache, terms, info):
 
     # ---- bookkeeping ----
     kinds = [it["kind"] for b in batches for it in b]
+    ctx.count("streams-with-connection-loss", 1 if reconnects else 0)
+    ctx.count("connection-losses", len(reconnects))
     bad_before_good = any(any(it["kind"] not in ("fresh",) for it in b[:j]) and b[j]["kind"] == "fresh" for b in batches for j in range(len(b)))
     nontrivial = cnt["update"] > 0 and bad_before_good
     ctx.case((tuple(kinds), tuple(c for _, _, c in obs["delivered"])) if nontrivial else None, kind="stream")
@@ -574,7 +650,7 @@ def unsign_cases(ctx, alias_ok, terms, info):
     seen = set()
     for i in range(ctx.n(25, 250)):
         r = ctx.rng("unsign", i)
-        S, batches = gen_stream(r)
+        S, batches, reconnects = gen_stream(r)
         sym = Symbols(S)
         n = 0
         pairs = []
